@@ -50,11 +50,14 @@ def _is_special(ctx, d):
     return not bool(np.isfinite(d))
 
 
-def mk_dist_pp(dim, affine=False):
+def mk_dist_pp(dim, affine=False, lattice_p=None):
     def case(ctx):
         from geometer import Point, dist
         n = dim + 1
-        if affine:
+        if lattice_p is not None:
+            p = ctx.const(list(lattice_p), float)
+            q = mk_array(ctx, [ctx.real(f"q_{i}") for i in range(dim)] + [1])
+        elif affine:
             p = mk_array(ctx, [ctx.real(f"p_{i}") for i in range(dim)] + [1])
             q = mk_array(ctx, [ctx.real(f"q_{i}") for i in range(dim)] + [1])
         else:
@@ -283,6 +286,125 @@ def case_isometry_invariance(ctx):
     ctx.require("dist:isometry-invariant", ctx.eq(d0, d1))
 
 
+def custom_dist_3d_polytopes(tier, seed):
+    """supplementary, NOT a solver verdict (3-D distances go through the SVD contract stub and are undecided symbolically): concrete evaluation of
+    dist(point, convex polygon in 3-space / cuboid) on a lattice of points against an independent numpy oracle (clamped projections)"""
+    import itertools
+    import time
+    from geometer import Polygon, Point, Cuboid, dist, translation, rotation
+    t0 = time.time()
+    res = {"paths": 0, "forks": 0, "obligations": 0, "ob_total": 0, "violations": [], "inconclusive": [], "samples": [], "by_step": {"evaluated": 0},
+           "outcomes": {}, "reach": {}, "validated": 0, "solver_time": 0.0}
+
+    def seg_d(a, b, q):
+        ab = b - a
+        t = min(1.0, max(0.0, float(np.dot(q - a, ab) / np.dot(ab, ab))))
+        return float(np.linalg.norm(a + t * ab - q))
+
+    def poly_d(V, q):
+        V = [np.asarray(v, float) for v in V]
+        n = np.cross(V[1] - V[0], V[2] - V[0])
+        n = n / np.linalg.norm(n)
+        off = float(np.dot(q - V[0], n))
+        f = q - off * n
+        inside = all(np.dot(np.cross(V[(i + 1) % len(V)] - V[i], f - V[i]), n) >= -1e-12 for i in range(len(V)))
+        if inside:
+            return abs(off)
+        return min(seg_d(V[i], V[(i + 1) % len(V)], q) for i in range(len(V)))
+    polys = {
+        "rect-in-plane-y=3": [(-1, 3, -1), (1, 3, -1), (1, 3, 1), (-1, 3, 1)],
+        "rect-in-plane-z=-5": [(0, 0, -5), (2, 0, -5), (2, 1, -5), (0, 1, -5)],
+        "triangle-in-plane-x+y+z=6": [(6, 0, 0), (0, 6, 0), (0, 0, 6)],
+        "triangle-through-origin": [(0, 0, 0), (4, 0, 0), (0, 4, 0)],
+    }
+    objs = []
+    for name, V in polys.items():
+        objs.append((name, Polygon(*[Point(*v) for v in V]), [np.array(v, float) for v in V]))
+    # images under rigid motions that move the supporting plane
+    V = polys["triangle-through-origin"]
+    objs.append(("translated-triangle", translation(0, 0, 2) * Polygon(*[Point(*v) for v in V]), [np.array(v, float) + np.array([0, 0, 2.0]) for v in V]))
+    objs.append(("shifted-triangle(+point)", Polygon(*[Point(*v) for v in V]) + Point(1, -1, 3), [np.array(v, float) + np.array([1, -1, 3.0]) for v in V]))
+    pts = [q for q in itertools.product((-1, 0.5, 2, 5) if tier == "quick" else (-1, 0.5, 1, 2, 4, 5), repeat=3)]
+    seen = set()
+    for name, P, V in objs:
+        for q in pts:
+            res["ob_total"] += 1
+            res["obligations"] += 1
+            res["by_step"]["evaluated"] += 1
+            bad = None
+            try:
+                d = float(dist(Point(*q), P))
+                d2 = float(dist(P, Point(*q)))
+                ref = poly_d(V, np.array(q, float))
+                if not (abs(d - ref) <= 1e-7 * (1 + ref) and abs(d2 - ref) <= 1e-7 * (1 + ref)):
+                    bad = f"dist(point,{name}):value"
+            except Exception as e:
+                bad = f"dist(point,{name}):{type(e).__name__}"
+            if bad and bad not in seen:
+                seen.add(bad)
+                res["violations"].append({"case": "dist_3d_polytopes_lattice", "obligation": bad, "env": {"q": str(q)}, "replay": {"failed": [bad]}})
+    cube = Cuboid(Point(0, 0, 0), Point(2, 0, 0), Point(0, 2, 0), Point(0, 0, 2))
+    for q in pts:
+        res["ob_total"] += 1
+        res["obligations"] += 1
+        res["by_step"]["evaluated"] += 1
+        qq = np.array(q, float)
+        inside = bool(np.all(qq >= 0) and np.all(qq <= 2))
+        ref = float(np.min(np.concatenate([qq, 2 - qq]))) if inside else float(np.linalg.norm(qq - np.clip(qq, 0, 2)))   # distance to the surface
+        bad = None
+        try:
+            d = float(dist(Point(*q), cube))
+            if abs(d - ref) > 1e-7 * (1 + ref):
+                bad = "dist(point,cuboid):value"
+        except Exception as e:
+            bad = f"dist(point,cuboid):{type(e).__name__}"
+        if bad and bad not in seen:
+            seen.add(bad)
+            res["violations"].append({"case": "dist_3d_polytopes_lattice", "obligation": bad, "env": {"q": str(q)}, "replay": {"failed": [bad]}})
+    res["paths"] = res["ob_total"]
+    res["samples"].append({"case": "dist_3d_polytopes_lattice", "verdict": "concrete evaluation against a numpy oracle (supplementary, outside the solver claim)", "objects": [n for n, _, _ in objs] + ["cuboid"], "points": len(pts)})
+    res["wall"] = time.time() - t0
+    return res
+
+
+def custom_dist_planes(tier, seed):
+    """supplementary concrete evaluation: distance of parallel planes / plane and parallel line (3-D, SVD stub undecided symbolically)"""
+    import time
+    from geometer import Plane, Line, Point, dist, PlaneCollection
+    t0 = time.time()
+    res = {"paths": 0, "forks": 0, "obligations": 0, "ob_total": 0, "violations": [], "inconclusive": [], "samples": [], "by_step": {"evaluated": 0},
+           "outcomes": {}, "reach": {}, "validated": 0, "solver_time": 0.0}
+    seen = set()
+    normals = [(0, 0, 1), (1, 2, 2), (-2, 1, 2), (3, 0, -4), (1, -1, 0)]
+    for n in normals:
+        nn = float(np.linalg.norm(n))
+        for d1, d2, lam in ((0, -3, 1), (2, 5, -2), (-9, 3, 0.5), (1, 1.5, 3)):
+            res["ob_total"] += 1
+            res["obligations"] += 1
+            res["by_step"]["evaluated"] += 1
+            bad = None
+            try:
+                e, f = Plane(*n, d1), Plane(*[lam * x for x in n], lam * d2)
+                ref = abs(d1 - d2) / nn
+                a, b = float(dist(e, f)), float(dist(f, e))
+                if abs(a - ref) > 1e-7 * (1 + ref) or abs(b - ref) > 1e-7 * (1 + ref):
+                    bad = "dist(plane,plane):value"
+                C = PlaneCollection([f.array, e.array])
+                c = dist(e, C)
+                if abs(float(c[0]) - ref) > 1e-7 * (1 + ref) or abs(float(c[1])) > 1e-7:
+                    bad = bad or "dist(plane,plane-collection):value"
+            except RecursionError:
+                bad = "dist(plane,plane):RecursionError"
+            except Exception as ex:
+                bad = f"dist(plane,plane):{type(ex).__name__}"
+            if bad and bad not in seen:
+                seen.add(bad)
+                res["violations"].append({"case": "dist_planes_lattice", "obligation": bad, "env": {"n": str(n), "d1": str(d1), "d2": str(d2)}, "replay": {"failed": [bad]}})
+    res["paths"] = res["ob_total"]
+    res["wall"] = time.time() - t0
+    return res
+
+
 def cases(tier, seed):
     Q, T = ("quick", "thorough"), ("thorough",)
     cs = []
@@ -293,6 +415,8 @@ def cases(tier, seed):
     A = ("attempt",)   # attempted, not decided within budget on the unchanged tree: outside the claim (./check C09 --tier attempt)
     add("dist_pp_3d_affine", mk_dist_pp(3, affine=True), tiers=A, max_paths=2000)
     add("dist_pp_3d", mk_dist_pp(3), tiers=A, max_paths=2000)
+    for k, lp in enumerate([(0, 0, 0, 1), (1, 2, -1, 1), (3, 0, -2, 2)]):
+        add(f"dist_pp_3d_lattice{k}", mk_dist_pp(3, lattice_p=lp), tiers=A, max_paths=2000)
     add("dist_pl_2d", case_dist_pl, tiers=Q, max_paths=2000)
     add("dist_pe_3d", case_dist_pe, tiers=("attempt",), max_paths=2000)
     add("angle_ppp_2d", case_angle_ppp, tiers=Q, max_paths=2000)
@@ -303,4 +427,6 @@ def cases(tier, seed):
         add(f"dist_point_segment{k}", mk_dist_point_segment(k), tiers=Q, max_paths=2000)
     add("angle_ppp_3d", case_angle_ppp_3d, tiers=("attempt",), max_paths=2000)
     add("dist_isometry_2d", case_isometry_invariance, tiers=Q)
+    cs.append(Case("dist_3d_polytopes_lattice", custom_dist_3d_polytopes, kind="custom"))
+    cs.append(Case("dist_planes_lattice", custom_dist_planes, kind="custom"))
     return cs
